@@ -14,7 +14,7 @@ ASSUME = [
     "deadlocks caused by the MITM move are resolved by closing the in-memory pipe, never by a timer; the 300 s handshake "
     "timer never fires (a run in which it did is repeated, not judged)",
     "dialed-peer expectations (right / other key, inline / SHA-256 multihash form) are exercised through two real Litep2p "
-    "nodes over loopback TCP, the comparison being done by negotiate_connection (30 s to get an event, inconclusive runs "
+    "nodes over loopback TCP and by calling the real negotiate_connection on both ends of a loopback socket (hook), the comparison being done by negotiate_connection (30 s to get an event, inconclusive runs "
     "are repeated, not judged); the websocket transport has the same comparison but is not compiled into the harness",
     "a dialed peer id in SHA-256 form never equals the id an Ed25519 key proves (inline form), also for the same key: must fail",
     "small-order ed25519 keys (for which anybody can produce valid signatures) are out of scope",
@@ -35,6 +35,8 @@ def classify(seg, idx):
     if sc["peer"] == "rogue" and sc["pv"] == "noncanonKey" and ev["outcome"] == "ok" and ev["peer"] == "X":
         return "noncanonical-identity-key-foreign-peer-id"
     what = sc["pv"] if sc["peer"] == "rogue" else "%s-m%s-%s" % (sc["mitm"]["move"], sc["mitm"]["msg"], sc["mitm"]["field"])
+    if sc["dialed"] != "none":
+        what = "dialed-%s-%s" % ("same-key" if sc["dialed"] == "B" else "other-key", sc["dialedForm"])
     return "%s-%s-%s-%s" % (ev["role"], ev["outcome"], ev["peer"] or "none", what)
 
 
@@ -73,7 +75,8 @@ def check(ctx):
     known = load_known(ctx.pid)
     need = [] if any(v["sig"] not in known for v in violations) else ["ok_pass", "ok_asR", "err_stolen", "err_sigByOther", "err_sigOverOtherStatic", "err_sigNoPrefix", "err_noSig", "err_noKey",
             "err_garbageSig", "err_unknownType", "err_corrupt", "err_substitute", "err_drop", "err_replay", "err_extend",
-            "err_truncadj", "err_truncraw", "ok_tcp_B_inline", "err_tcp_C_inline", "err_tcp_B_sha256", "err_tcp_C_sha256", "ok_tcp_listener"]
+            "err_truncadj", "err_truncraw", "ok_tcp_B_inline", "err_tcp_C_inline", "err_tcp_B_sha256", "err_tcp_C_sha256", "ok_tcp_listener",
+            "ok_negotiate_B_inline", "err_negotiate_C_inline", "err_negotiate_B_sha256", "err_negotiate_C_sha256", "ok_negotiate_listener"]
     for k in need:
         if not outc.get(k):
             raise ToolError("coverage hole: no real run with outcome class %s" % k)
@@ -104,7 +107,8 @@ MUTANTS = [
     ("signature not bound to the session static key", "p.sig.by = p.key.n /\\ p.sig.over = <<\"prefix\", ep.rs>>", "p.sig.by = p.key.n /\\ p.sig.over \\in {<<\"prefix\", ep.rs>>, <<\"prefix\", Key(\"sOther\")>>}"),
     ("signer not compared with the advertised key", "p.sig.by = p.key.n /\\ p.sig.over", "p.sig.over"),
     ("domain prefix not required", "p.sig.over = <<\"prefix\", ep.rs>>", "p.sig.over \\in {<<\"prefix\", ep.rs>>, <<ep.rs>>}"),
-    ("dialed peer not compared", "IF side = \"d\" /\\ sc.dialed # \"none\" /\\ sc.dialed # peer THEN Fail(ep)", "IF FALSE THEN Fail(ep)"),
+    ("dialed peer not compared", "IF side = \"d\" /\\ sc.dialed # \"none\" /\\ (sc.dialed # peer \\/ sc.dialedForm # \"inline\") THEN Fail(ep)", "IF FALSE THEN Fail(ep)"),
+    ("dialed peer compared only when the multihash forms agree", "(sc.dialed # peer \\/ sc.dialedForm # \"inline\") THEN Fail(ep)", "(sc.dialedForm = \"inline\" /\\ sc.dialed # peer) THEN Fail(ep)"),
     ("peer id derived from the received key bytes", "ELSE LET peer == p.key.n IN", "ELSE LET peer == IF p.key.canon THEN p.key.n ELSE \"X\" IN"),
     ("handshake hash not bound into the AEAD", "ct.t = \"enc\" /\\ ct.ck = ss.ck /\\ ct.h = ss.h", "ct.t = \"enc\" /\\ ct.ck = ss.ck"),
 ]
